@@ -435,7 +435,7 @@ pub fn run_c36(cli: &Cli) -> Report {
     use Who::*;
     let mut acts = vec![
         Act::Create(0, 0, Keeper),
-        Act::Create(1, 1, Keeper),
+        Act::Create(1, 3, Keeper),
         Act::Create(0, 4, Keeper),
         Act::Create(1, 6, Keeper),
         Act::Create(1, 0, Stranger),
@@ -463,7 +463,7 @@ pub fn run_c36(cli: &Cli) -> Report {
         Act::Adv(99),
     ];
     if th {
-        acts.extend([Act::Create(1, 2, Keeper), Act::Create(0, 3, Keeper), Act::Create(1, 5, Keeper), Act::DisableTldRole, Act::EnableTldRole, Act::IncreaseDelay(u32::MAX, Admin), Act::IncreaseDelay(0, Admin), Act::Approve(1, Approver2)]);
+        acts.extend([Act::Create(1, 2, Keeper), Act::Create(0, 1, Keeper), Act::Create(1, 5, Keeper), Act::DisableTldRole, Act::EnableTldRole, Act::IncreaseDelay(u32::MAX, Admin), Act::IncreaseDelay(0, Admin), Act::Approve(1, Approver2)]);
     }
     let tl = Tl { k, acts };
     let start = St { db, now: 1_000, bufs: [Buf::Absent; 2], delay: DELAY0 as u64, approver1_has_role: true, tld_enabled: true, executed: 0 };
